@@ -148,6 +148,11 @@ class Monitors(object):
 
 
 def programs(which=0):
+    if which == 2:
+        # members whose content is free-form XML: other deserialisation paths (dict_from_element, any_xml ...)
+        P = {'n': 'P', 'fields': [['s', U], ['d', ['p', 'AnyDict', {}]], ['x', ['p', 'AnyXml', {}]]]}
+        m = {'n': 'm', 'args': [['a', ['c', 'P', {}]], ['dd', ['p', 'AnyDict', {}]], ['t', U]], 'ret': U}
+        return {'tns': TNS, 'classes': [P], 'services': [{'n': 'S', 'methods': [m]}]}, None
     if which == 1:
         Q = {'n': 'Q', 'fields': [['q', U], ['qa', ['xa', U]], ['d', ['p', 'Date', {}]]]}
         P = {'n': 'P', 'fields': [['s', U], ['at', ['xa', U]], ['qs', ['a', ['c', 'Q', {}], {}]], ['u', ['p', 'Unicode', {'max_occurs': 'unbounded'}]]]}
@@ -281,6 +286,7 @@ def shards(tier):
     for proto in ('xml', 'soap11', 'soap12'):
         for transport in ('server', 'wsgi'):
             out.append({'kind': 'inject', 'proto': proto, 'transport': transport, 'tier': tier})
+            out.append({'kind': 'inject', 'proto': proto, 'transport': transport, 'tier': tier, 'program': 2})
             if tier == 'thorough':
                 out.append({'kind': 'inject', 'proto': proto, 'transport': transport, 'tier': tier, 'program': 1})
             out.append({'kind': 'bombs', 'proto': proto, 'transport': transport, 'tier': tier})
@@ -420,6 +426,15 @@ def _strings(v):
         for x in v:
             for s in _strings(x):
                 yield s
+    elif isinstance(v, dict):
+        for k, x in v.items():
+            for s in _strings(k):
+                yield s
+            for s in _strings(x):
+                yield s
+    elif isinstance(v, etree._Element):
+        yield etree.tostring(v, encoding='unicode')
+        yield ''.join(v.itertext())
 
 
 def run_shard(shard, only=None):
@@ -431,7 +446,15 @@ def run_shard(shard, only=None):
     h = harness.XmlHarness(prog, proto, None)
     wsgi = WsgiApplication(h.app)
     m = h.b.methods['m']
-    valid = xsdcodec.build_request(h.codec, m, args, proto)
+    if args is None:
+        # (free-form members are not denotable by the schema-driven codec: the valid request is written out)
+        inner = ('<tns:m xmlns:tns="%s"><tns:a><tns:s>ess</tns:s><tns:d><k>vee</k><deep><leaf at="attr">tee</leaf><leaf>two</leaf></deep></tns:d>'
+                 '<tns:x><any kind="free">content<sub>more</sub></any></tns:x></tns:a><tns:dd><one>1</one><two><three>3</three></two></tns:dd>'
+                 '<tns:t>tee</tns:t></tns:m>' % TNS)
+        env = xsdcodec.envelope_ns(proto)
+        valid = (('<e:Envelope xmlns:e="%s"><e:Body>%s</e:Body></e:Envelope>' % (env, inner)) if env else inner).encode('utf8')
+    else:
+        valid = xsdcodec.build_request(h.codec, m, args, proto)
     if shard['kind'] == 'lifecycle':
         run_lifecycle(shard, res, h, valid, only)
         from vf.props.c01 import compress
